@@ -206,6 +206,65 @@ def nearest_rule(rep):
     rep.floor("C06.e", n, 4)
 
 
+DECLARE_FNS = [
+    # start-tag functions that push the xmlns declarations of the tag being scanned
+    ("WFXMLScanner::scanStartTagNS", "src/xercesc/internal/WFXMLScanner.cpp"),
+    ("DGXMLScanner::scanStartTag", "src/xercesc/internal/DGXMLScanner.cpp"),
+    ("IGXMLScanner::scanStartTagNS", "src/xercesc/internal/IGXMLScanner.cpp"),
+    ("IGXMLScanner::scanRawAttrListforNameSpaces", "src/xercesc/internal/IGXMLScanner2.cpp"),
+    ("SGXMLScanner::scanStartTag", "src/xercesc/internal/SGXMLScanner.cpp"),
+    ("SGXMLScanner::scanRawAttrListforNameSpaces", "src/xercesc/internal/SGXMLScanner.cpp"),
+    ("XSAXMLScanner::scanStartTag", "src/xercesc/internal/XSAXMLScanner.cpp"),
+    ("XSAXMLScanner::scanRawAttrListforNameSpaces", "src/xercesc/internal/XSAXMLScanner.cpp"),
+]
+DECLARES = ("addPrefix", "updateNSMap", "scanRawAttrListforNameSpaces")
+RESOLVES = ("resolvePrefix", "resolveQName", "resolveQNameWithColon", "mapPrefixToURI", "buildAttList")
+
+
+def declare_first_rule(rep):
+    rep.rule("C06.f", "all declarations of a start tag precede every resolution: in the start-tag functions of the five scanners no "
+             "call that pushes a namespace declaration (ElemStack::addPrefix, updateNSMap, scanRawAttrListforNameSpaces) is "
+             "reachable in the CFG from a call that resolves a prefix (resolvePrefix, resolveQName*, mapPrefixToURI, buildAttList) "
+             "— a prefix resolved while declarations of the same tag are still being pushed can bind to an outer, shadowed "
+             "namespace when its xmlns attribute comes later in the tag")
+    pat = "^(" + "|".join(re.escape(q) for q, _ in DECLARE_FNS) + ")$"
+    g = core.run_xa(sorted({os.path.join(core.REPO, fl) for _, fl in DECLARE_FNS}), cfg=pat, flat=False)
+    n = 0
+
+    def named(el, names):
+        return any(x[0] == "c" and x[1].split("::")[-1] in names for x in guard.el_top_calls(el))
+    for q, fl in DECLARE_FNS:
+        for raw in g.cfgs.get(q, []):
+            cfg = guard.Cfg(raw)
+            decl = [(b, i, el) for b, i, el in cfg.elements() if named(el, DECLARES)]
+            res = [(b, i, el) for b, i, el in cfg.elements() if named(el, RESOLVES)]
+            if not decl:
+                continue
+            n += 1
+            dblocks = {}
+            for b, i, el in decl:
+                dblocks.setdefault(b, []).append((i, el))
+            bad = []
+            for b, i, el in res:
+                later = [e2 for j, e2 in dblocks.get(b, []) if j > i]
+                seen, work = set(), list(cfg.succs(b))
+                while work:
+                    x = work.pop()
+                    if x in seen:
+                        continue
+                    seen.add(x)
+                    work.extend(cfg.succs(x))
+                hit = later + [e2 for bb in seen for _, e2 in dblocks.get(bb, [])]
+                if hit:
+                    bad.append((el.get("l"), hit[0].get("l")))
+            rep.ob("C06.f", q + raw.get("sig", ""), not bad,
+                   "%d declaring call(s), %d resolving call(s); no declaration after a resolution" % (len(decl), len(res)) if not bad else
+                   "%s: the prefix resolution at line %s can be followed by the namespace declaration pushed at line %s of the same "
+                   "start tag — a prefix is resolved before all xmlns attributes of its tag are in scope" % (q, bad[0][0], bad[0][1]),
+                   "%s:%s" % (fl, bad[0][0] if bad else decl[0][2].get("l", 0)))
+    rep.floor("C06.f", n, 6)
+
+
 def run(rep):
     f = core.library_facts()
     rep.units.update(os.path.relpath(t, core.REPO) for t in f.tus)
@@ -213,6 +272,7 @@ def run(rep):
     dispatch_rule(rep, f)
     registry_rule(rep, f)
     nearest_rule(rep)
+    declare_first_rule(rep)
     diag.run(rep, f, "C06")
     rep.undecided += ["that the URI bound to each name is the right one (scoping arithmetic in ElemStack): value-level",
                       "DOM lookupNamespaceURI/lookupPrefix results"]
